@@ -94,4 +94,5 @@ class Contract:
         self.setslice_hook = None
         self.isinstance_hook = None
         self.consume_hook = None
+        self.next_hook = None
         REGISTRY.append(self)
